@@ -238,6 +238,72 @@ fn record(n: usize, out: &str) {
     rep.print();
 }
 
+
+// ---- growth family (thorough tier, observation only): to_person_name on stored values ----------
+
+fn grow(n: usize, out: &str) {
+    std::fs::create_dir_all(out).expect("mkdir");
+    let path = format!("{out}/grow.ndjson");
+    let mut w = NdjsonWriter::create(&path);
+    let mut rng = Rng::new(seed_from_env() ^ 0x6017);
+    let mut cases: Vec<(String, Vec<String>)> = vec![
+        ("Str".into(), vec!["Adams^John^Robert^Rev.^B.A. M.Div.".into()]),
+        ("Str".into(), vec!["Adams^John ".into()]),
+        ("Str".into(), vec!["Adams^ ".into()]),
+        ("Str".into(), vec!["".into()]),
+        ("Str".into(), vec!["^^^^".into()]),
+        ("Str".into(), vec!["A^B^C^D^E^F".into()]),
+        ("Str".into(), vec!["Yamada^Tarou=\u{5c71}\u{7530}^\u{592a}\u{90ce}=\u{3084}\u{307e}\u{3060}^\u{305f}\u{308d}\u{3046}".into()]),
+        ("Strs".into(), vec![]),
+        ("Strs".into(), vec!["Doe^Jane".into(), "Roe^Richard".into()]),
+        ("Empty".into(), vec![]),
+        ("U16".into(), vec![]),
+    ];
+    for i in 0..n {
+        let k = 1 + rng.below(6) as usize;
+        let mut t = String::new();
+        for j in 0..k {
+            if j > 0 {
+                t.push('^');
+            }
+            if rng.below(3) != 0 {
+                t.push_str(&rand_comp(&mut rng));
+            }
+        }
+        for _ in 0..rng.below(3) {
+            t.push(' ');
+        }
+        if i % 3 == 0 {
+            cases.push(("Strs".into(), vec![t, "Second^Value".into()]));
+        } else {
+            cases.push(("Str".into(), vec![t]));
+        }
+    }
+    for (var, texts) in cases {
+        let pv = match var.as_str() {
+            "Str" => PrimitiveValue::Str(texts[0].clone()),
+            "Strs" => PrimitiveValue::Strs(texts.iter().cloned().collect()),
+            "Empty" => PrimitiveValue::Empty,
+            _ => PrimitiveValue::U16(Default::default()),
+        };
+        let r = catch(move || pv.to_person_name().ok().map(|p| parts(&p)));
+        let v = json!({"var": var, "items": texts.iter().map(|t| cps_json(t)).collect::<Vec<_>>()});
+        let empty5 = parts_json(&vec![String::new(); 5]);
+        let (panic, res) = match r {
+            Ok(Some(p)) => (false, json!({"ok": true, "comps": parts_json(&p)})),
+            Ok(None) => (false, json!({"ok": false, "comps": empty5})),
+            Err(_) => (true, json!({"ok": false, "comps": empty5})),
+        };
+        w.emit(&json!({"ev": "topn", "text_shown": texts.first().cloned().unwrap_or_default(), "v": v, "panic": panic, "res": res}));
+    }
+    let lines = w.finish();
+    let mut rep = Report::new();
+    rep.cases = lines;
+    rep.extra.insert("trace".into(), Value::from(path));
+    rep.extra.insert("events".into(), Value::from(lines as u64));
+    rep.print();
+}
+
 fn main() {
     quiet_panics();
     let a = args_map();
@@ -246,6 +312,7 @@ fn main() {
     match mode {
         "replay" => replay(a.get("cases").expect("--cases"), &out),
         "record" => record(a.get("n").and_then(|s| s.parse().ok()).unwrap_or(2000), &out),
+        "grow" => grow(a.get("n").and_then(|s| s.parse().ok()).unwrap_or(2000), &out),
         _ => {
             eprintln!("usage: drv_pname replay --cases F --out D | record --n N --out D");
             std::process::exit(2);
